@@ -73,48 +73,56 @@ package xpath
 // with number()/boolean() and pushes the result.
 
 //@ func (*ProgBuilder).Add
+//@   implements type:instFunc
 //@   requires ctx != nil
 //@   modifies ctx.stack
 //@   modifies elems(ctx.stack)
 //@   ensures pop2push1(ctx)
 //@   ensures top(ctx) == xp_mknum(xp_add(xp_number(arg2(ctx)), xp_number(arg1(ctx))))
 //@ func (*ProgBuilder).Sub
+//@   implements type:instFunc
 //@   requires ctx != nil
 //@   modifies ctx.stack
 //@   modifies elems(ctx.stack)
 //@   ensures pop2push1(ctx)
 //@   ensures top(ctx) == xp_mknum(xp_sub(xp_number(arg2(ctx)), xp_number(arg1(ctx))))
 //@ func (*ProgBuilder).Mul
+//@   implements type:instFunc
 //@   requires ctx != nil
 //@   modifies ctx.stack
 //@   modifies elems(ctx.stack)
 //@   ensures pop2push1(ctx)
 //@   ensures top(ctx) == xp_mknum(xp_mul(xp_number(arg2(ctx)), xp_number(arg1(ctx))))
 //@ func (*ProgBuilder).Div
+//@   implements type:instFunc
 //@   requires ctx != nil
 //@   modifies ctx.stack
 //@   modifies elems(ctx.stack)
 //@   ensures pop2push1(ctx)
 //@   ensures top(ctx) == xp_mknum(xp_div(xp_number(arg2(ctx)), xp_number(arg1(ctx))))
 //@ func (*ProgBuilder).Mod
+//@   implements type:instFunc
 //@   requires ctx != nil
 //@   modifies ctx.stack
 //@   modifies elems(ctx.stack)
 //@   ensures pop2push1(ctx)
 //@   ensures top(ctx) == xp_mknum(xp_mod(xp_number(arg2(ctx)), xp_number(arg1(ctx))))
 //@ func (*ProgBuilder).Negate
+//@   implements type:instFunc
 //@   requires ctx != nil
 //@   modifies ctx.stack
 //@   modifies elems(ctx.stack)
 //@   ensures pop1push1(ctx)
 //@   ensures top(ctx) == xp_mknum(xp_neg(xp_number(arg1(ctx))))
 //@ func (*ProgBuilder).And
+//@   implements type:instFunc
 //@   requires ctx != nil
 //@   modifies ctx.stack
 //@   modifies elems(ctx.stack)
 //@   ensures pop2push1(ctx)
 //@   ensures top(ctx) == xp_mkbool(xp_boolean(arg2(ctx)) && xp_boolean(arg1(ctx)))
 //@ func (*ProgBuilder).Or
+//@   implements type:instFunc
 //@   requires ctx != nil
 //@   modifies ctx.stack
 //@   modifies elems(ctx.stack)
@@ -123,26 +131,31 @@ package xpath
 
 // Comparisons (XPath 1.0 section 3.4) when neither operand is a node-set.
 //@ func (*ProgBuilder).Ne
+//@   implements type:instFunc
 //@   requires ctx != nil
 //@   modifies ctx.stack
 //@   modifies elems(ctx.stack)
 //@   ensures implies(xp_isscalar(arg1(ctx)) && xp_isscalar(arg2(ctx)), pop2push1(ctx) && top(ctx) == xp_mkbool(xp_ne_scalar(arg2(ctx), arg1(ctx))))
 //@ func (*ProgBuilder).Lt
+//@   implements type:instFunc
 //@   requires ctx != nil
 //@   modifies ctx.stack
 //@   modifies elems(ctx.stack)
 //@   ensures implies(xp_isscalar(arg1(ctx)) && xp_isscalar(arg2(ctx)), pop2push1(ctx) && top(ctx) == xp_mkbool(xp_lt_scalar(arg2(ctx), arg1(ctx))))
 //@ func (*ProgBuilder).Le
+//@   implements type:instFunc
 //@   requires ctx != nil
 //@   modifies ctx.stack
 //@   modifies elems(ctx.stack)
 //@   ensures implies(xp_isscalar(arg1(ctx)) && xp_isscalar(arg2(ctx)), pop2push1(ctx) && top(ctx) == xp_mkbool(xp_le_scalar(arg2(ctx), arg1(ctx))))
 //@ func (*ProgBuilder).Gt
+//@   implements type:instFunc
 //@   requires ctx != nil
 //@   modifies ctx.stack
 //@   modifies elems(ctx.stack)
 //@   ensures implies(xp_isscalar(arg1(ctx)) && xp_isscalar(arg2(ctx)), pop2push1(ctx) && top(ctx) == xp_mkbool(xp_gt_scalar(arg2(ctx), arg1(ctx))))
 //@ func (*ProgBuilder).Ge
+//@   implements type:instFunc
 //@   requires ctx != nil
 //@   modifies ctx.stack
 //@   modifies elems(ctx.stack)
@@ -228,3 +241,120 @@ package xpath
 //@   requires ctx != nil && len(args) == 2 && args[0] != nil && args[1] != nil
 //@   modifies mapof(testedFunctionTable)
 //@   ensures result == xp_mklit(xp_substring_after(xp_string(args[0]), xp_string(args[1])))
+
+// ---------------------------------------------------------------------------
+// Stack primitives (callers inline them; these contracts pin their behaviour).
+
+//@ func (*context).pushDatum
+//@   inline
+//@   requires ctx != nil
+//@   modifies ctx.stack
+//@   modifies elems(ctx.stack)
+//@   nopanic
+//@   ensures push1(ctx) && top(ctx) == d
+//@ func (*context).popInternal
+//@   inline
+//@   requires ctx != nil
+//@   modifies ctx.stack
+//@   ensures old(len(ctx.stack)) >= 1
+//@   ensures len(ctx.stack) == old(len(ctx.stack)) - 1 && result == old(ctx.stack[len(ctx.stack)-1])
+//@   ensures ctx.stack == old(ctx.stack[:len(ctx.stack)-1])
+//@ func (*context).popDatum
+//@   inline
+//@   requires ctx != nil
+//@   modifies ctx.stack
+//@   ensures len(ctx.stack) == old(len(ctx.stack)) - 1 && result == old(ctx.stack[len(ctx.stack)-1]) && result != nil
+//@   ensures ctx.stack == old(ctx.stack[:len(ctx.stack)-1])
+//@ func (*context).popNumber
+//@   inline
+//@   requires ctx != nil
+//@   modifies ctx.stack
+//@   ensures len(ctx.stack) == old(len(ctx.stack)) - 1 && same(result, xp_number(arg1(ctx)))
+//@   ensures ctx.stack == old(ctx.stack[:len(ctx.stack)-1])
+//@ func (*context).popBool
+//@   inline
+//@   requires ctx != nil
+//@   modifies ctx.stack
+//@   ensures len(ctx.stack) == old(len(ctx.stack)) - 1 && result == xp_boolean(arg1(ctx))
+//@   ensures ctx.stack == old(ctx.stack[:len(ctx.stack)-1])
+
+// Push instructions: the closures capture immutable values only.
+//@ func (*ProgBuilder).CodeNum$1
+//@   implements type:instFunc
+//@   requires ctx != nil
+//@   modifies ctx.stack
+//@   modifies elems(ctx.stack)
+//@   nopanic
+//@   ensures push1(ctx) && top(ctx) == xp_mknum(*num)
+//@ func (*ProgBuilder).CodeLiteral$1
+//@   implements type:instFunc
+//@   requires ctx != nil
+//@   modifies ctx.stack
+//@   modifies elems(ctx.stack)
+//@   nopanic
+//@   ensures push1(ctx) && top(ctx) == xp_mklit(*lit)
+//@ func (*ProgBuilder).PushBool$1
+//@   implements type:instFunc
+//@   requires ctx != nil
+//@   modifies ctx.stack
+//@   modifies elems(ctx.stack)
+//@   nopanic
+//@   ensures push1(ctx) && top(ctx) == xp_mkbool(*b)
+//@ func (*ProgBuilder).PushNotFound$1
+//@   implements type:instFunc
+//@   requires ctx != nil
+//@   modifies ctx.stack
+//@   modifies elems(ctx.stack)
+//@   nopanic
+//@   ensures push1(ctx) && xp_isnset(top(ctx)) && len(top(ctx).(nodesetDatum).nodes) == 0
+
+// Store: the value left on the stack becomes the result; anything else left over is an error.
+//@ func (*ProgBuilder).Store
+//@   implements type:instFunc
+//@   requires ctx != nil && ctx.res != nil
+//@   modifies ctx.stack
+//@   modifies ctx.res.value
+//@   ensures old(len(ctx.stack)) == 1 && len(ctx.stack) == 0 && ctx.res.value == arg1(ctx)
+
+// Result accessors: the run error comes first, then the final conversion of section 4.
+//@ func (*Result).GetBoolResult
+//@   requires res != nil
+//@   ensures implies(res.runErr != nil, result1 == res.runErr)
+//@   ensures implies(res.runErr == nil && res.value != nil, result1 == nil && result0 == xp_boolean(res.value))
+//@   ensures implies(res.runErr == nil && res.value == nil, result1 != nil)
+//@ func (*Result).GetNumResult
+//@   requires res != nil
+//@   ensures implies(res.runErr != nil, result1 == res.runErr)
+//@   ensures implies(res.runErr == nil && res.value != nil, result1 == nil && same(result0, xp_number(res.value)))
+//@   ensures implies(res.runErr == nil && res.value == nil, result1 != nil)
+//@ func (*Result).GetLiteralResult
+//@   requires res != nil
+//@   ensures implies(res.runErr != nil, result1 == res.runErr)
+//@   ensures implies(res.runErr == nil && res.value != nil, result1 == nil && result0 == xp_string(res.value))
+//@   ensures implies(res.runErr == nil && res.value == nil, result1 != nil)
+//@ func (*Result).GetError
+//@   requires res != nil
+//@   nopanic
+//@   ensures result == res.runErr
+
+// ---------------------------------------------------------------------------
+// Running a machine (C05): every instruction is an instFunc. Whatever an
+// instruction does, it leaves the context's result object in place; Run turns
+// every panic of an instruction into a run error and always returns that object.
+
+//@ func type:instFunc
+//@   params ctx
+//@   requires ctx != nil && ctx.res != nil
+//@   modifies *
+//@   preserves ctx.res
+//@   preserves ctx.prog
+//@   preserves elems(ctx.prog)
+
+//@ func (*context).Run
+//@   requires ctx != nil && ctx.res != nil
+//@   requires forall(i, 0, len(ctx.prog), ctx.prog[i].fn != nil)
+//@   modifies *
+//@   nopanic
+//@   ensures result != nil && result == old(ctx.res)
+//@   loop 0 invariant ctx.res == old(ctx.res) && ctx.prog == old(ctx.prog)
+//@   loop 0 invariant forall(i, 0, len(ctx.prog), ctx.prog[i].fn != nil)
